@@ -12,7 +12,8 @@ pub struct C07;
 
 pub fn gen_case(c: &mut Choices, adversarial: bool) -> Case {
     let tsx = c.chance(1, 3);
-    let opts = any_opts(c, true, tsx);
+    let mut opts = any_opts(c, true, tsx);
+    let bad_pragma = crate::gen::opts::maybe_invalid_pragma(c, &mut opts);
     let knobs = Knobs {
         tsx,
         unusual: true,
@@ -35,6 +36,9 @@ pub fn gen_case(c: &mut Choices, adversarial: bool) -> Case {
         case.label(format!("ctx={u}"));
     }
     case.label(format!("lang={}", case.lang));
+    if bad_pragma {
+        case.label("option=invalid-pragma-name");
+    }
     if f.jsx > 0 {
         case.label("has-jsx");
     }
